@@ -10,4 +10,5 @@ CONSTANTS
   CallsOnly = FALSE
   Rich = TRUE
   Inplace = TRUE
+  Collectors = TRUE
 CHECK_DEADLOCK FALSE
